@@ -1,6 +1,6 @@
 (* C01 — SimpleMRS serialisation is lossless (token level). *)
 From Coq Require Import List NArith ZArith Bool.
-From PyD Require Import Base.Str Model.Mrs Model.Iso Model.SimpleMrs Proofs.SimpleMrsP.
+From PyD Require Import Base.Str Model.Mrs Model.Iso Model.SimpleMrs Proofs.SimpleMrsP Model.MrsJson Proofs.MrsJsonP.
 Import ListNotations.
 
 (* the decoder's unescaping inverts the encoder's escaping of constants,
@@ -65,3 +65,13 @@ Theorem C01_hypotheses_satisfiable :
   exists toks vp, enc_mrs_full (fun _ => false) true true ex_m = Some (toks, vp) /\ length toks = 65%nat.
 Proof. exact (conj ex_wf (conj ex_expressible ex_encodes)). Qed.
 Print Assumptions C01_hypotheses_satisfiable.
+
+(* MRS-JSON at the level of the JSON value: reading back the dictionary that
+   to_dict writes gives the structure with exactly the suppressed information
+   removed (variables and their properties in order; alignments that are not
+   character spans degrade to <-1:-1>) *)
+Theorem C01_json_from_to_dict : forall p l m d,
+  PyD.Model.MrsJson.to_dict p l m = Some d ->
+  PyD.Model.MrsJson.from_dict d = Some (PyD.Proofs.MrsJsonP.proj_json p l m).
+Proof. exact PyD.Proofs.MrsJsonP.from_to_dict. Qed.
+Print Assumptions C01_json_from_to_dict.
